@@ -17,17 +17,11 @@ def MutOK (s : St) (key : Key) (m : Mut) : Prop :=
 * `set_construct`: the construct is itself consistent; a domain axis stored over an existing one that
   something spans keeps its size; a coordinate reference / cell method names only existing constructs;
 * `constructs.replace` (documented as unchecked): the new construct fits, see `ReplaceOK`;
-* a mutator called on a contained construct: the changed construct still fits, see `MutOK`;
-* `insert_dimension` with `constructs=True` AND `inplace=True`: no domain topology / cell connectivity
-  construct has data (`NoTopoData`).  For such a construct the step of the loop always fails AFTER the
-  construct was reshaped, and in place that stays (open finding
-  `insert_dimension-inplace-constructs-rejected-half-way-on-topology`, witness
-  `C02_inplace_insert_dimension_topology_breaks_inv`). -/
+* a mutator called on a contained construct: the changed construct still fits, see `MutOK`. -/
 def Admissible (s : St) : Op → Prop
   | .setc _ t c key _ => SetOK s t c key
   | .replace key c axes => ReplaceOK s key c axes
   | .mutate key m => MutOK s key m
-  | .insdim _ _ cs ip => (cs && ip) = true → NoTopoData s
   | _ => True
 
 theorem setDataNew_core {s : St} (h : Core s) (shp : List Nat) (axes : Option (List Key)) :
@@ -77,7 +71,7 @@ theorem step_core {s : St} (h : Core s) (op : Op) (hok : Admissible s op) : Core
   | sub ix => exact subspace_core h ix
   | squeeze axes inplace => exact squeezeField_core h axes inplace
   | transpose perm constructs inplace => exact transposeField_core h perm constructs inplace
-  | insdim axis position constructs inplace => exact insertDimension_core h axis position constructs inplace hok
+  | insdim axis position constructs inplace => exact insertDimension_core h axis position constructs inplace
   | convert key full => exact convertField_core h key full
   | setdn shape axes => exact setDataNew_core h shape axes
   | mutate key m => exact mutate_core h key m hok
